@@ -138,6 +138,10 @@ func c03Run(r *sim.Run) {
 		c03Encoders(r)
 		return
 	}
+	if t.Chance(200) {
+		c03LeafBox(r)
+		return
+	}
 	// ---- the byte string X
 	var x []byte
 	name := ""
@@ -360,6 +364,135 @@ func c03TwoProtectedTracks(r *sim.Run) []byte {
 	return out
 }
 
+var c03BoxTypes []string
+
+// synthBox makes a box of a registered type with a seeded payload (small integers, zeros, a few random bytes):
+// most box types never occur in the corpus, this is how their decoder/encoder pairs are reached.
+func synthBox(t *sim.Tape, rnd *sim.Rand) []byte {
+	if c03BoxTypes == nil {
+		rd, _, _ := mp4.VsimDecoderKeys()
+		c03BoxTypes = rd
+	}
+	typ := c03BoxTypes[t.Draw(len(c03BoxTypes))]
+	n := []int{0, 4, 8, 12, 16, 20, 24, 32, 40, 64, 100}[t.Draw(11)] + t.Draw(4)
+	pl := make([]byte, n)
+	switch t.Draw(4) {
+	case 0: // zeros with a version byte
+		if n > 0 {
+			pl[0] = byte(t.Draw(3))
+		}
+	case 1: // small big-endian integers
+		for i := 0; i+4 <= n; i += 4 {
+			pl[i+3] = byte(t.Draw(5))
+		}
+		if n > 0 {
+			pl[0] = byte(t.Draw(2))
+		}
+	case 2:
+		rnd.Fill(pl)
+		if n >= 4 {
+			pl[0], pl[1], pl[2] = byte(t.Draw(2)), 0, 0
+		}
+	default:
+		rnd.Fill(pl)
+	}
+	out := make([]byte, 8+n)
+	out[0], out[1], out[2], out[3] = byte((8+n)>>24), byte((8+n)>>16), byte((8+n)>>8), byte(8+n)
+	copy(out[4:], typ)
+	copy(out[8:], pl)
+	return out
+}
+
+// c03LeafBox: box-level interchangeability for every registered box type. A seeded box is normalised through one path
+// (decode, re-encode); if the result is a fixed point of that path, the other path must accept it and give a
+// deep-equal structure, and Encode/EncodeSW of the decoded box must agree.
+func c03LeafBox(r *sim.Run) {
+	t := r.T
+	rnd := t.Sub()
+	raw := synthBox(t, rnd)
+	typ := string(raw[4:8])
+	r.Event("leaf", int(sim.HashString(typ)&0xffff), len(raw))
+	decSR := func(x []byte) (b mp4.Box, err error) {
+		if perr := noPanic(r, func() { b, err = mp4.DecodeBoxSR(0, bits.NewFixedSliceReader(x)) }); perr != nil {
+			return nil, perr
+		}
+		return
+	}
+	decRd := func(x []byte, cfg sim.ReadCfg) (b mp4.Box, err error) {
+		h := sim.NewHandle(r, "box", x, cfg)
+		if perr := noPanic(r, func() { b, err = mp4.DecodeBox(0, sim.StreamReader{H: h}) }); perr != nil {
+			return nil, perr
+		}
+		return
+	}
+	enc := func(b mp4.Box) ([]byte, error) {
+		s := sim.NewSink(nil)
+		var err error
+		if perr := noPanic(r, func() { err = b.Encode(s) }); perr != nil {
+			return nil, perr
+		}
+		return s.Buf, err
+	}
+	firstSR := t.Bool()
+	var b0 mp4.Box
+	var err error
+	if firstSR {
+		b0, err = decSR(raw)
+	} else {
+		b0, err = decRd(raw, sim.PlainCfg())
+	}
+	if err != nil || b0 == nil {
+		r.Probe("leaf-rejected")
+		return
+	}
+	x, err := enc(b0)
+	if err != nil || len(x) < 8 {
+		return
+	}
+	// is x a fixed point of the first path?
+	var b1 mp4.Box
+	if firstSR {
+		b1, err = decSR(x)
+	} else {
+		b1, err = decRd(x, sim.PlainCfg())
+	}
+	if err != nil || b1 == nil {
+		return
+	}
+	x1, err := enc(b1)
+	if err != nil || !bytes.Equal(x1, x) {
+		r.Probe("leaf-not-a-fixed-point")
+		return
+	}
+	r.Probe("leaf-canonical")
+	r.Probe("leaf-canonical:" + typ)
+	r.Logf("leaf box %q: %d bytes canonical via %s path", typ, len(x), map[bool]string{true: "slice", false: "reader"}[firstSR])
+	// the other path
+	var b2 mp4.Box
+	if firstSR {
+		b2, err = decRd(x, sim.DrawDelivery(t))
+	} else {
+		b2, err = decSR(x)
+	}
+	if err != nil || b2 == nil {
+		r.Violate("c03-leaf-rejects", "box %q (%x): one decode path reproduces it exactly, the other rejects it: %v", typ, trunc(x, 48), err)
+		return
+	}
+	if d := deepEquiv(b1, b2); d != "" {
+		r.Violate("c03-leaf-structure", "box %q (%x): the two decode paths give different structures at %s", typ, trunc(x, 48), d)
+	}
+	// encoders on the decoded box
+	var sz uint64
+	_ = noPanic(r, func() { sz = b2.Size() })
+	out, e2, _ := encodeSWTo(r, "EncodeSW", b2, int(sz)+64)
+	if e2 == nil && !bytes.Equal(out, x) {
+		r.Violate("c03-leaf-encoders", "box %q: EncodeSW writes %d bytes differing from Encode's %d bytes (first diff %d)", typ, len(out), len(x), firstDiff(out, x))
+	}
+	if e2 != nil {
+		r.Violate("c03-leaf-encoders", "box %q: Encode succeeds, EncodeSW fails: %v", typ, e2)
+	}
+}
+
 // c03Encoders: Encode(w) vs EncodeSW(sw) on one node: identical bytes or both fail; with the same
 // capacity imposed on both sinks both fail or both succeed.
 func c03Encoders(r *sim.Run) {
@@ -427,7 +560,7 @@ func init() {
 	sim.Register(&sim.Prop{
 		ID:    "C03",
 		Level: "exploration",
-		Rule: "each run either (encoders) picks a node of a decoded corpus file / packager production and compares Encode with EncodeSW (either order, same capacity imposed on both sinks: n, n-1, n+1, seeded), or (decoders) takes a byte string X = corpus file or packager stream, " +
+		Rule: "each run either (leaf) builds a box of any REGISTERED type with a seeded payload, normalises it through one decode path and, if the result is a fixed point, demands acceptance and deep equality from the other path and equal Encode/EncodeSW output; or (encoders) picks a node of a decoded corpus file / packager production and compares Encode with EncodeSW (either order, same capacity imposed on both sinks: n, n-1, n+1, seeded), or (decoders) takes a byte string X = corpus file or packager stream, " +
 			"optionally passed through 1-2 size-repaired unit-transport operations (splice foreign box, duplicate, swap, move, drop; top level or nested), decodes it by the slice path and by the reader path, applies the property's precondition literally " +
 			"(a path that accepts X and re-encodes it exactly in box-tree mode obliges the other path to accept X and give a deep-equal structure incl. grouping and start positions), then re-decodes through a seeded legal delivery schedule and with the stream cut at byte b or failing at read k. " +
 			"non-trivial = a delivery/transport/capacity fault fired; distinct = hash of (X identity, transport ops, acceptance pattern, delivered read sizes, outcomes).",
@@ -437,6 +570,6 @@ func init() {
 		Setup:      c03Setup,
 		Run:        c03Run,
 		WantFaults: []string{"read-short", "read-zero", "read-data+eof", "read-eio", "disk-truncated", "unit-spliced", "unit-duplicated", "unit-reordered", "unit-moved", "unit-dropped", "slice-short", "write-full"},
-		WantProbes: []string{"canonical-X", "cut-on-box-boundary"},
+		WantProbes: []string{"canonical-X", "cut-on-box-boundary", "leaf-canonical"},
 	})
 }
